@@ -19,23 +19,27 @@ from mdvc.verify import contract
 INC = dict(include=("mdtraj/geometry/include",))
 
 
-@contract("C10", "mdtraj/geometry/src/neighbors.cpp", "_compute_neighbors", cases=["no-box", "orthorhombic", "triclinic"], lang="c",
-          replay="neighbors", covers=["some-neighbour", "no-neighbour"], max_paths=4000)
+CASES = [(b, hq) for b in ("no-box", "orthorhombic", "triclinic-b-skewed", "triclinic-c-skewed") for hq in ((2, 1), (1, 2))]
+
+
 def compute_neighbors(ctx, case):
+    case, (nh, nq) = case
     c = ctx.load_c("mdtraj/geometry/src/neighbors.cpp", ["_compute_neighbors"], **INC)
     xyz = Region("xyz")
     box = Region("box")
     xyz.mem0, box.mem0 = xyz.mem, box.mem
     na, cutoff = ctx.int("n_atoms"), ctx.real("cutoff")
-    q = [ctx.int("q0"), ctx.int("q1")]
-    h = [ctx.int("h0"), ctx.int("h1")]
+    q = [ctx.int(f"q{k}") for k in range(nq)]
+    h = [ctx.int(f"h{k}") for k in range(nh)]
     ctx.assume(na >= 1, cutoff > 0, *[x >= 0 for x in q + h], *[x < na for x in q + h])
     B = lambda k: z3.Select(box.mem0, k)
     if case == "orthorhombic":
         ctx.assume(*[B(k) == 0 for k in (1, 2, 3, 5, 6, 7)], B(0) > 0, B(4) > 0, B(8) > 0)
-    elif case == "triclinic":
-        # rows are the box vectors; lower triangular with positive diagonal (standard orientation), at least one off-diagonal
-        ctx.assume(B(1) == 0, B(2) == 0, B(5) == 0, B(0) > 0, B(4) > 0, B(8) > 0, z3.Or(B(3) != 0, B(6) != 0, B(7) != 0))
+    elif case == "triclinic-b-skewed":
+        # rows are the box vectors; lower triangular with positive diagonal (standard orientation); b has an x component
+        ctx.assume(B(1) == 0, B(2) == 0, B(5) == 0, B(0) > 0, B(4) > 0, B(8) > 0, B(3) != 0)
+    elif case == "triclinic-c-skewed":
+        ctx.assume(B(1) == 0, B(2) == 0, B(5) == 0, B(0) > 0, B(4) > 0, B(8) > 0, B(3) == 0, B(6) != 0)
     events = []
 
     def decl_hook(interp, env, name, v):
@@ -58,7 +62,7 @@ def compute_neighbors(ctx, case):
                         L = B(4 * k)
                         ex.require(f"pair:congruence[{k}]:delta=(x_i-x_j)-n*L", delta[k] == diff[k] - w[k] * L)
                         ex.require(f"pair:wrap-bound[{k}]:|delta|<=L/2", z3.And(delta[k] <= L / 2, -delta[k] <= L / 2))
-            else:
+            elif case.startswith("triclinic"):
                 w = [z3.ToReal(n) for n in wit[-3:]] if len(wit) >= 6 else None
                 ex.require("pair:three-integer-roundings-after-box-reduction", z3.BoolVal(w is not None))
                 if w:
@@ -66,7 +70,23 @@ def compute_neighbors(ctx, case):
                     w3, w2, w1 = w
                     for k in range(3):
                         ex.require(f"pair:congruence[{k}]:delta=(x_i-x_j)-w3*c-w2*b-w1*a", delta[k] == diff[k] - w3 * b3[k] - w2 * b2[k] - w1 * b1[k])
-                    ex.require("pair:wrap-bound:|delta_z|<=c_z/2", z3.And(delta[2] <= b3[2] / 2, -delta[2] <= b3[2] / 2))
+                    rc = interp.getvar(env, "recip_box_size")
+                    RC = [rterm(rc.region.read(k)) for k in range(3)]
+                    half = z3.RealVal("1/2")
+                    absle = lambda x, hh: z3.And(x <= hh, -x <= hh)
+                    WB = ctx.lemma("wrap-bound:|n-r*R|<=1/2,B>0,R*B=1=>|r-n*B|<=B/2", 4,
+                                   lambda n, r, Rr, Bb: z3.Implies(z3.And(absle(n - r * Rr, half), Bb > 0, Rr * Bb == 1), absle(r - n * Bb, Bb / 2)))
+                    rz = [diff[k] - w3 * b3[k] for k in range(3)]
+                    ry = [rz[k] - w2 * b2[k] for k in range(3)]
+                    # recip_box_size holds 1/diagonal of the box AS GIVEN; the reduction keeps the diagonal (b_y, c_z unchanged, a untouched)
+                    ex.require("pair:recip_box_size[k]*diagonal[k]=1", z3.And(RC[0] * b1[0] == 1, RC[1] * b2[1] == 1, RC[2] * b3[2] == 1))
+                    ex.assume(z3.And(RC[0] * b1[0] == 1, RC[1] * b2[1] == 1, RC[2] * b3[2] == 1))
+                    WB(w3, diff[2], RC[2], b3[2])
+                    WB(w2, rz[1], RC[1], b2[1])
+                    WB(w1, ry[0], RC[0], b1[0])
+                    ex.require("pair:wrap-bound:|delta_z|<=c_z/2", absle(delta[2], b3[2] / 2))
+                    ex.require("pair:wrap-bound:|delta_y|<=b_y/2", absle(delta[1], b2[1] / 2))
+                    ex.require("pair:wrap-bound:|delta_x|<=a_x/2", absle(delta[0], b1[0] / 2))
         return v
 
     c.decl_hook = decl_hook
@@ -96,3 +116,9 @@ def compute_neighbors(ctx, case):
             ctx.ensure(f"excluded-only-after-all-query-atoms-were-tried[{h.index(hk)}]", z3.BoolVal(tried + selfpairs == len(q)))
     ctx.ensure("result-is-a-subsequence-of-the-haystack-in-order-without-extras", z3.BoolVal(pos == len(res)))
     ctx.ensure("inputs-untouched", z3.BoolVal(not xyz.writes and not box.writes))
+
+
+# one registration per case so that the cases are explored in parallel
+for _c in CASES:
+    contract("C10", "mdtraj/geometry/src/neighbors.cpp", "_compute_neighbors", cases=[_c], lang="c", replay="neighbors",
+             covers=["some-neighbour", "no-neighbour"], max_paths=400)(compute_neighbors)
